@@ -104,6 +104,7 @@ class ScriptEngine(Engine):
             if not host_values_in_range(h.trace):
                 probes["out_of_range"] = probes.get("out_of_range", 0) + 1
                 continue
+            h.trace.live_samples = list(h.recorder.live_samples)
             host_runs.append((world, h))
         if not host_runs:
             return Outcome("discard", message="script not well defined in any world", probes=probes)
@@ -452,3 +453,70 @@ class E1Persist(E1Core):
         script = gen.generate()
         worlds = [random_world(rng, script, n) for n in (0, 1, 2, 3)]
         return {"script": script, "worlds": worlds, "features": sorted(gen.features_used)}
+
+
+class E7Heap(ScriptEngine):
+    """C09: list/str programs under AddressSanitizer + UBSan, live heap sampled after every pass."""
+
+    name = "e7-heap"
+    property_id = "C09"
+    variant_default = "asan"
+    rule = (
+        "list/str-heavy programs (literals, comprehensions, append/remove pairs, negative indices, re-assignment, "
+        "lists shared between setup and the loop, string concatenation and f-strings), IndexError-free by "
+        "construction with the CPython run as arbiter, compiled with clang -fsanitize=address,undefined and run "
+        "for 6-12 passes; violation = any sanitizer report, a trace divergence, or board heap bytes that differ "
+        "between passes k >= 2 while the host program's live list/str data is constant; distinct = trace digest"
+    )
+    assumptions = ScriptEngine.assumptions + [
+        "heap bytes are read through __sanitizer_get_current_allocated_bytes after every pass; the mock String keeps an exact-fit buffer so live bytes are a function of live data",
+    ]
+
+    def setup(self) -> None:
+        from dst.board import build
+        from dst.host import executor
+
+        build.ensure_runtime("asan")
+        executor.install()
+
+    def generate(self, rng, tier: str, avoid) -> dict:
+        from dst.gen.programs import GenOptions, ProgGen, random_world
+
+        opts = GenOptions(
+            max_stmts=rng.choice([8, 14, 22]),
+            max_depth=rng.choice([1, 2]),
+            use_led=False,
+            use_lists=True,
+            use_strings=rng.random() < 0.8,
+            use_floats=rng.random() < 0.5,
+            use_helpers=rng.random() < 0.4,
+            use_sleep=False,
+            main_loop=True,
+        )
+        gen = ProgGen(rng, avoid, opts)
+        gen.list_bias = True
+        script = gen.generate()
+        passes = rng.choice([6, 8, 12])
+        return {"script": script, "worlds": [random_world(rng, script, passes)], "features": sorted(gen.features_used), "variant": "asan"}
+
+    def extra_board_checks(self, case, world, bt, ht):
+        heaps = []
+        for _t, _p, kind, rest in bt.raw:
+            if kind == "PASS_END":
+                m = re.search(r"heap=(-?\d+)", rest)
+                if m:
+                    heaps.append(int(m.group(1)))
+        live = getattr(ht, "live_samples", None)
+        if live is None or len(heaps) < 4:
+            return None
+        # live[0] = end of setup, live[k+1] = end of pass k (the sample for the last pass is taken at the end)
+        per_pass = live[1:]
+        if len(per_pass) >= len(heaps) and len(set(per_pass[1 : len(heaps)])) == 1:
+            steady = heaps[2:]
+            if len(set(steady)) > 1:
+                return Outcome(
+                    "violation",
+                    cls="heap-growth",
+                    message=f"live list/str data is constant ({per_pass[1]} items) but the firmware's heap is not: bytes after each pass {heaps}",
+                )
+        return None
